@@ -242,7 +242,7 @@ MORE5 = {
            "advances or yields.",
     'C09': " R16j: a written row is one JSON object / GeoJSON feature on every path of the writer.",
     'C11': " KEY: the list of key fields keeps the order of the key specification.",
-    'C13': " PRS: load substitutes its own parser exactly for xml, excel-xml, sql and geojson.",
+    'C13': " PRS: load registers no parser of its own for a format tabulator reads itself ('sql' excepted).",
     'C20': " UBF: the default of use_bloom_filter is False (reported as a known finding: the storage library's bloom filter takes an "
            "existing number / any typed key for new).",
     'C16': " SRC end clause as in C04. SMP: iterable_storage reads the iterable only as a bounded slice into the sample that is chained back.",
